@@ -225,6 +225,8 @@ def truthy(val):
         return z3.BoolVal(False)
     if isinstance(ty, SeqT):
         return z3.Length(val.t) > 0
+    if isinstance(ty, SetT):
+        return val.t != z3.EmptySet(ty.elem.sort())
     if isinstance(ty, (ListT, DictT)):
         return z3.Not(ty.is_nil(val.t))
     if isinstance(ty, UnionT):
